@@ -12,6 +12,13 @@
 #endif
 #define BVB(s) ((BVEC_T *)&(s)->_sortedVector)
 
+/* the inputs of the scenario, exported under fixed names for the native replay (replay/native_sets.cpp) */
+extern int64_t g_in_tok, g_in_tok2, g_in_na, g_in_nb, g_in_la, g_in_lb, g_in_a0, g_in_a1, g_in_a2, g_in_a3, g_in_b0, g_in_b1, g_in_b2, g_in_b3;
+static void bs_export(int64_t tok, int64_t tok2, _Bool la, _Bool lb, uint64_t na, const int64_t *ra, uint64_t nb, const int64_t *rb) {
+  g_in_tok = tok; g_in_tok2 = tok2; g_in_la = la; g_in_lb = lb; g_in_na = (int64_t)na; g_in_nb = (int64_t)nb;
+  g_in_a0 = na > 0 ? ra[0] : -1; g_in_a1 = na > 1 ? ra[1] : -1; g_in_a2 = na > 2 ? ra[2] : -1; g_in_a3 = na > 3 ? ra[3] : -1;
+  g_in_b0 = nb > 0 ? rb[0] : -1; g_in_b1 = nb > 1 ? rb[1] : -1; g_in_b2 = nb > 2 ? rb[2] : -1; g_in_b3 = nb > 3 ? rb[3] : -1;
+}
 static _Bool bs_lt(int token, int64_t a, int64_t b) {
   int64_t ka = (token & 2) ? (a >> 1) : a, kb = (token & 2) ? (b >> 1) : b;
   return (token & 1) ? ka > kb : ka < kb;
@@ -64,6 +71,7 @@ void bs_flatset_merge(void) {
   a._base0.token = tok; b._base0.token = tok;
   bs_make_vec(BVB(&a), tok, na, ca, ra); bs_make_vec(BVB(&b), tok, nb, cb, rb);
   uint64_t out0 = bs_blocks(BVB(&a)) + bs_blocks(BVB(&b)), al0 = g_nalloc, de0 = g_ndealloc, ct0 = g_nctor, dt0 = g_ndtor;
+  bs_export(tok, tok, 0, 0, na, ra, nb, rb);
   BFS_MERGE(&a, &b);
   __CPROVER_assert(l0_exc == 0, "C03: merge does not fail when nothing throws");
   bs_check_vec(BVB(&a), tok, "a"); bs_check_vec(BVB(&b), tok, "b");
@@ -91,6 +99,7 @@ void bs_flatset_merge_other(void) {
   a._base0.token = tok; b._base0.token = tok2;
   bs_make_vec(BVB(&a), tok, na, ca, ra); bs_make_vec(BVB(&b), tok2, nb, cb, rb);
   uint64_t ct0 = g_nctor, dt0 = g_ndtor;
+  bs_export(tok, tok2, 0, 0, na, ra, nb, rb);
   BFS_MERGE_OTHER(&a, &b);
   __CPROVER_assert(l0_exc == 0, "C03: merge does not fail when nothing throws");
   bs_check_vec(BVB(&a), tok, "a"); bs_check_vec(BVB(&b), tok2, "b");
@@ -123,6 +132,7 @@ void bs_flatset_insert_range(void) {
   bs_make_vec(BVB(&a), tok, na, ca, ra);
   E *src = bs_make_range(m, rs);
   uint64_t ct0 = g_nctor, dt0 = g_ndtor;
+  bs_export(tok, tok, 0, 0, na, ra, m, rs);
   BFS_INSERT_RANGE(&a, src, src + m);
   __CPROVER_assert(l0_exc == 0, "C03: range insertion does not fail when nothing throws");
   bs_check_vec(BVB(&a), tok, "a");
@@ -156,6 +166,7 @@ void bs_flatset_from_vector(void) {
   ((BVEC_T *)&v)->_size = (__typeof__(((BVEC_T *)&v)->_size))m; ((BVEC_T *)&v)->_capa = (__typeof__(((BVEC_T *)&v)->_capa))c; ((BVEC_T *)&v)->_storage = buf;
   struct GhostCmp cmp; cmp.token = tok;
   uint64_t ct0 = g_nctor, dt0 = g_ndtor;
+  bs_export(tok, tok, 0, 0, 0, rs, m, rs);
   BFS_FROM_VECTOR(&a, &v, &cmp);
   __CPROVER_assert(l0_exc == 0, "C03: construction from a vector does not fail when nothing throws");
   __CPROVER_assert(a._base0.token == tok, "C03: the set stores the comparator it was given");
@@ -224,6 +235,7 @@ void bs_smallset_merge(void) {
 #endif
   bs_make_ss(&a, 0, tok, la, na, BSS_N, 3, ra); bs_make_ss(&b, 1, tok, lb, nb, 2, 2, rb);
   uint64_t ct0 = g_nctor, dt0 = g_ndtor;
+  bs_export(tok, tok, la, lb, na, ra, nb, rb);
   BSS_MERGE(&a, &b);
   __CPROVER_assert(l0_exc == 0, "C04: merge does not fail when nothing throws");
   bs_check_ss(&a, 0, tok); bs_check_ss(&b, 1, tok);
